@@ -2,9 +2,15 @@ package nc
 
 import (
 	"fmt"
+	"go/ast"
+	"go/constant"
+	"go/token"
 	"go/types"
 	"sort"
+	"strconv"
 	"strings"
+
+	"golang.org/x/tools/go/packages"
 
 	"golang.org/x/tools/go/ssa"
 )
@@ -218,6 +224,13 @@ func (c *Ctx) ruleEnumTables(rule, pkg string) {
 			if cst, ok := r.Results[0].(*ssa.Const); ok {
 				back[ft.B.S] = ConstString(cst)
 			}
+		}
+	}
+	// table form: one package-level array / slice of names indexed by the state; String indexes it, StringToState
+	// scans it and hands back the index of the first match
+	if len(fwd) == 0 && len(back) == 0 {
+		if tf, tb, ok := c.enumNameTable(str, parse); ok {
+			fwd, back = tf, tb
 		}
 	}
 	ok := len(fwd) >= 3
@@ -923,4 +936,260 @@ func (c *Ctx) c20ListsNeverNull() {
 			R.Unresolved("R7", "list results of "+fk, "no slice-typed result on a success return")
 		}
 	}
+}
+
+// enumNameTable reads the table form of a String / StringToState pair: String returns G[state] for a package-level
+// array or slice G of constant strings that nothing but its initialiser writes; StringToState ranges over the same
+// G and returns the index of the element that equals its parameter. fwd maps state value -> name (entries with a
+// name), back maps name -> the first index holding it.
+func (c *Ctx) enumNameTable(str, parse *ssa.Function) (map[string]string, map[string]string, bool) {
+	globalOf := func(v ssa.Value) *ssa.Global {
+		for {
+			switch x := v.(type) {
+			case *ssa.Global:
+				return x
+			case *ssa.UnOp:
+				if x.Op.String() != "*" {
+					return nil
+				}
+				v = x.X
+			default:
+				return nil
+			}
+		}
+	}
+	stripConv := func(v ssa.Value) ssa.Value {
+		for {
+			switch x := v.(type) {
+			case *ssa.Convert:
+				v = x.X
+			case *ssa.ChangeType:
+				v = x.X
+			default:
+				return v
+			}
+		}
+	}
+	// String: some return hands out G[param]
+	var g *ssa.Global
+	for _, r := range Returns(str) {
+		if len(r.Results) != 1 {
+			continue
+		}
+		ld, ok := r.Results[0].(*ssa.UnOp)
+		if !ok || ld.Op.String() != "*" {
+			continue
+		}
+		ia, ok := ld.X.(*ssa.IndexAddr)
+		if !ok || stripConv(ia.Index) != ssa.Value(str.Params[0]) {
+			continue
+		}
+		if g = globalOf(ia.X); g != nil {
+			break
+		}
+	}
+	if g == nil {
+		return nil, nil, false
+	}
+	table, ok := c.globalStringTable(g)
+	if !ok {
+		return nil, nil, false
+	}
+	// every other return of String is a constant that is not a name of the table (the out-of-range answer)
+	names := map[string]bool{}
+	for _, n := range table {
+		names[n] = true
+	}
+	for _, r := range Returns(str) {
+		if cst, ok := r.Results[0].(*ssa.Const); ok {
+			if names[ConstString(cst)] && ConstString(cst) != "" {
+				return nil, nil, false
+			}
+		} else if ld, ok := r.Results[0].(*ssa.UnOp); !ok || globalOf(func() ssa.Value {
+			if ia, ok := ld.X.(*ssa.IndexAddr); ok {
+				return ia.X
+			}
+			return nil
+		}()) != g {
+			return nil, nil, false
+		}
+	}
+	// StringToState: a whole-range loop over G; the edge "element == parameter" leads to a return of the loop index
+	po := c.P.OriginsOf(parse)
+	scans := false
+	for _, l := range po.Loops.Loops {
+		if l.RangeOf == nil || l.Index == nil || globalOf(l.RangeOf) != g {
+			continue
+		}
+		for _, e := range po.AllEdges() {
+			if !l.Blocks[e.From] {
+				continue
+			}
+			ft := po.EdgeFact(e)
+			if ft == nil || ft.Kind != "cmp" || !ft.Pos || ft.Op.String() != "==" {
+				continue
+			}
+			prm := "P:" + parse.Params[0].Name()
+			var el *Ex
+			switch {
+			case ft.A.String() == prm:
+				el = ft.B
+			case ft.B.String() == prm:
+				el = ft.A
+			}
+			if el == nil || !strings.HasPrefix(el.String(), "G:") && !strings.HasPrefix(el.String(), "elem(") {
+				continue
+			}
+			if r, ok := e.To().Instrs[len(e.To().Instrs)-1].(*ssa.Return); ok && len(r.Results) == 1 && stripConv(r.Results[0]) == l.Index {
+				scans = true
+			}
+		}
+	}
+	if !scans {
+		// an array has a static length: the range loop compares its index with that constant
+		n := staticArrayLen(g.Type().(*types.Pointer).Elem())
+		for _, e := range po.AllEdges() {
+			ft := po.EdgeFact(e)
+			if n < 0 || ft == nil || ft.Kind != "cmp" || !ft.Pos || ft.Op.String() != "==" {
+				continue
+			}
+			prm := "P:" + parse.Params[0].Name()
+			if ft.A.String() != prm && ft.B.String() != prm {
+				continue
+			}
+			r, ok := e.To().Instrs[len(e.To().Instrs)-1].(*ssa.Return)
+			if !ok || len(r.Results) != 1 {
+				continue
+			}
+			iv := stripConv(r.Results[0])
+			ie := po.Of(iv).String()
+			if ie != "(acc(+; #-1; #1) + #1)" && ie != "acc(+; #0; #1)" {
+				continue
+			}
+			// the compared element is G[that index]
+			elemOK := false
+			for _, b := range parse.Blocks {
+				for _, in := range b.Instrs {
+					if ia, ok := in.(*ssa.IndexAddr); ok && globalOf(ia.X) == g && ia.Index == iv {
+						elemOK = true
+					}
+					if ix, ok := in.(*ssa.Index); ok && globalOf(ix.X) == g && ix.Index == iv {
+						elemOK = true
+					}
+				}
+			}
+			// the loop runs while index < N
+			bounded := false
+			for _, e2 := range po.AllEdges() {
+				f2 := po.EdgeFact(e2)
+				if f2 != nil && f2.Kind == "cmp" && f2.Pos && f2.Op.String() == "<" && f2.A.String() == ie && isConst(f2.B, strconv.FormatInt(n, 10)) {
+					bounded = true
+				}
+			}
+			if elemOK && bounded {
+				scans = true
+			}
+		}
+	}
+	if !scans {
+		return nil, nil, false
+	}
+	fwd, back := map[string]string{}, map[string]string{}
+	idx := make([]int64, 0, len(table))
+	for k := range table {
+		idx = append(idx, k)
+	}
+	sort.Slice(idx, func(i, j int) bool { return idx[i] < idx[j] })
+	for _, k := range idx {
+		n := table[k]
+		if n == "" {
+			continue
+		}
+		ks := strconv.FormatInt(k, 10)
+		fwd[ks] = n
+		if _, dup := back[n]; !dup {
+			back[n] = ks
+		}
+	}
+	return fwd, back, true
+}
+
+// globalStringTable evaluates the initialiser of a package-level array / slice of strings written as a composite
+// literal of constants (index: name, or positional); false when the variable is written anywhere else.
+func (c *Ctx) globalStringTable(g *ssa.Global) (map[int64]string, bool) {
+	var pkg *packages.Package
+	for _, p := range c.P.Pkgs {
+		if p.Types == g.Pkg.Pkg {
+			pkg = p
+		}
+	}
+	if pkg == nil {
+		return nil, false
+	}
+	// no write outside the package initialiser
+	for _, f := range c.P.Funcs {
+		if f.Pkg != g.Pkg || f.Name() == "init" {
+			continue
+		}
+		for _, b := range f.Blocks {
+			for _, in := range b.Instrs {
+				switch x := in.(type) {
+				case *ssa.Store:
+					if r, _ := addrRoot(x.Addr); r == ssa.Value(g) {
+						return nil, false
+					}
+				case ssa.CallInstruction:
+					for _, a := range x.Common().Args {
+						if r, _ := addrRoot(a); r == ssa.Value(g) {
+							return nil, false
+						}
+					}
+				}
+			}
+		}
+	}
+	var lit *ast.CompositeLit
+	for _, file := range pkg.Syntax {
+		for _, d := range file.Decls {
+			gd, ok := d.(*ast.GenDecl)
+			if !ok || gd.Tok != token.VAR {
+				continue
+			}
+			for _, sp := range gd.Specs {
+				vs := sp.(*ast.ValueSpec)
+				for i, nm := range vs.Names {
+					if pkg.TypesInfo.Defs[nm] == g.Object() && i < len(vs.Values) {
+						lit, _ = vs.Values[i].(*ast.CompositeLit)
+					}
+				}
+			}
+		}
+	}
+	if lit == nil {
+		return nil, false
+	}
+	out := map[int64]string{}
+	next := int64(0)
+	for _, el := range lit.Elts {
+		val := el
+		if kv, ok := el.(*ast.KeyValueExpr); ok {
+			tv := pkg.TypesInfo.Types[kv.Key]
+			if tv.Value == nil {
+				return nil, false
+			}
+			k, exact := constant.Int64Val(constant.ToInt(tv.Value))
+			if !exact {
+				return nil, false
+			}
+			next = k
+			val = kv.Value
+		}
+		tv := pkg.TypesInfo.Types[val]
+		if tv.Value == nil || tv.Value.Kind() != constant.String {
+			return nil, false
+		}
+		out[next] = constant.StringVal(tv.Value)
+		next++
+	}
+	return out, true
 }
